@@ -592,7 +592,29 @@ def r18_requests_are_on_record_before_they_are_written(ctx):
     c03.r3_insert_before_send(ctx)
 
 
-RULES = [r17_an_accepted_subscription_is_registered_or_cancelled, r18_requests_are_on_record_before_they_are_written, rsel_shutdown_is_a_select_branch, r1_classifier_agreement, r2_routing, r3_lag_and_close, r4_single_unsubscribe, r5_close_messages_are_not_lossy, r6_refused_insert_is_pure, r7_classifiers_are_plain, r8_client_builder_fields, r9_lagged_is_reported_as_lagged, r10_sub_ids_spelled_alike, r11_response_attempt_unconditional, r12_stream_ends_only_when_channel_ends, r13_channel_is_the_only_buffer, r14_classifiers_accept_any_payload, r15_routing_does_not_end_subscriptions, r16_every_notification_kind_counts_as_content, rarr_every_element, rcancel_receive_is_cancel_safe, rkeys_manager_keys_not_derived]
+def rids_subscription_ids_are_read_as_written(ctx):
+    """a notification is routed by its subscription id exactly as the server wrote it: SubscriptionId's decoder is the
+    derived one, no lenient number parsing (7.5 is not subscription 7) (= C15.IDS)"""
+    from .common import wire_ids_derive_both
+    wire_ids_derive_both(ctx, "C05.IDS")
+
+
+def r19_notification_handlers_see_plain_notifications_only(ctx):
+    """a subscription's notifications go to that subscription: only `process_notification` looks a notification handler
+    up (`as_notification_handler_mut`). A look-up from the subscription path (`a handler registered for the method gets
+    the raw notification`) diverts everything the server sends for the id away from its stream, which neither ends nor lags."""
+    F, R = ctx.F, ctx.R
+    n = 0
+    for c in F.all_calls(r"RequestManager::as_notification_handler_mut$"):
+        if c.body.crate != CORE or is_test_body(c.body):
+            continue
+        n += 1
+        root = F.root_fn(c.body)
+        R.check(bool(re.search(r"async_client::helpers::process_notification$", root.path)), "C05.R19", "handler-lookup:%s" % fkey(c.body), "notification handlers are looked up by process_notification", "%s looks a notification handler up: messages that belong to a subscription id can be handed to a method-level handler instead of the subscription's stream" % short(root.path), where(c))
+    R.floor("C05.R19", n, 1, "look-ups of notification handlers")
+
+
+RULES = [r19_notification_handlers_see_plain_notifications_only, rids_subscription_ids_are_read_as_written, r17_an_accepted_subscription_is_registered_or_cancelled, r18_requests_are_on_record_before_they_are_written, rsel_shutdown_is_a_select_branch, r1_classifier_agreement, r2_routing, r3_lag_and_close, r4_single_unsubscribe, r5_close_messages_are_not_lossy, r6_refused_insert_is_pure, r7_classifiers_are_plain, r8_client_builder_fields, r9_lagged_is_reported_as_lagged, r10_sub_ids_spelled_alike, r11_response_attempt_unconditional, r12_stream_ends_only_when_channel_ends, r13_channel_is_the_only_buffer, r14_classifiers_accept_any_payload, r15_routing_does_not_end_subscriptions, r16_every_notification_kind_counts_as_content, rarr_every_element, rcancel_receive_is_cancel_safe, rkeys_manager_keys_not_derived]
 
 LEVEL_TEXT = (
     "Structural necessary conditions of the client's notification demultiplexing decided from the type-checked program: "
